@@ -67,6 +67,8 @@ static inline uint32_t verif_libc_bcmp(uint8_t* a, uint8_t* b, uint64_t n){ retu
 static inline uint8_t* verif_libc_memchr(uint8_t* a, uint32_t c, uint64_t n){ for (uint64_t i = 0; i < n; i++) if (a[i] == (uint8_t)c) return a + i; return 0; }
 static inline uint32_t verif_libc_strcmp(uint8_t* a, uint8_t* b){ return (uint32_t)strcmp((const char*)a, (const char*)b); }
 static inline void verif_libc_abort(void){ abort(); }
+static inline double verif_libc_nan(uint8_t* tag){ return verif_f64_from_bits(0x7ff8000000000000ULL); }
+static inline float verif_libc_nanf(uint8_t* tag){ return verif_f32_from_bits(0x7fc00000u); }
 static inline void verif_libc_free(uint8_t* p){ free(p); }
 /* intrinsics */
 static inline void verif_llvm_trap(void){ verif_unreachable(); }
